@@ -162,6 +162,9 @@ func (k Keeper) WithdrawEarnedFees(ctx sdk.Context, owner, provider sdk.AccAddre
 		if earnedFees.Equal(ownerEarnedFees) {
 			k.DeleteOwnerEarnedFees(ctx, owner)
 		} else {
+			// SetOwnerEarnedFees only writes the denominations it is given: clear the old entries first so that a
+			// denomination withdrawn completely does not keep its stale amount
+			k.DeleteOwnerEarnedFees(ctx, owner)
 			k.SetOwnerEarnedFees(ctx, owner, ownerEarnedFees.Sub(earnedFees...))
 		}
 
